@@ -390,11 +390,10 @@ def run(rep: Report, tier: str):
     from . import c15 as _c15
 
     tmp = Report("C15", tier)
-    _c15.check_wire(repo, tmp)
+    _c15.check_wire_values(repo, tmp, "quick")
+    _c15.check_round_trip(repo, tmp, "quick")
     _c15.check_text_escape(repo, tmp)
-    bad_encoders = {f.construct.split(".")[-1] for f in tmp.findings if f.rule == "C15.wire-format"}
-    if any(f.rule == "C15.text-escape" for f in tmp.findings):
-        bad_encoders.add("Unicode")
+    bad_encoders = {f.construct.split(".")[-1] for f in tmp.findings if f.rule in ("C15.wire-values", "C15.text-escape")}
     rep.explanation = (
         "Each injection helper of Pickled is interpreted over an abstract opcode list [PROTO, FRAME, BODY, STOP] (BODY = any "
         "base pickle body, [] -> [obj]); the token sequence it produces is run on a symbolic VM with pickletools' stack "
@@ -566,7 +565,8 @@ def run(rep: Report, tier: str):
             raise AnalysisError(f"insert_python with header {hdr}: {e}")
         ops_ = [t.op for t in toks]
         first_inj = ops_.index("GLOBAL")
-        if ops_[:first_inj] == hdr and ops_[first_inj:first_inj + 5] == ["GLOBAL", "MARK", "CONST", "TUPLE", "REDUCE"] and ops_[first_inj + 5] == "BODY":
+        blk = ["CONST" if (o == "CONST" or o in CONST_OPNAMES) else o for o in ops_[first_inj:first_inj + 5]]
+        if ops_[:first_inj] == hdr and blk == ["GLOBAL", "MARK", "CONST", "TUPLE", "REDUCE"] and ops_[first_inj + 5] == "BODY":
             rep.ok("C08.prefix", f"{P}.insert_python", f"header {hdr or '[]'}: injected block sits right after it, contiguous, before the body", f"{ip.file}:{ip.line}")
         else:
             rep.bad("C08.prefix", f"{P}.insert_python", f"prefix-position:{'+'.join(hdr) or 'none'}", f"with header {hdr} the rewritten list is `{' '.join(ops_)}`: the injected block is not contiguous right after the header", ip.file, ip.line)
